@@ -44,6 +44,7 @@ def wedge(w):
 
 
 class C05Spec(c01.C01Spec):
+    churn_share = 0
     prop = PROP
     invariants = INVARIANTS
 
